@@ -246,6 +246,8 @@ pub fn run(tier: &str, seed: u64, outdir: &str) {
             ("none", Box::new(|_d: &mut Value| {}), false),
             ("encoded-value", Box::new(|d: &mut Value| { let e = d["values"]["age"]["encoded"].as_str().unwrap_or("0").to_string(); d["values"]["age"]["encoded"] = json!(bump_digit(&format!("{}0", e))); }), false),
             ("raw-value-only", Box::new(|d: &mut Value| { d["values"]["name"]["raw"] = json!("Mallory"); }), false),
+            ("encoded-value-blanked", Box::new(|d: &mut Value| { d["values"]["age"]["encoded"] = json!(""); }), false),
+            ("encoded-value-blanked-text", Box::new(|d: &mut Value| { d["values"]["name"]["encoded"] = json!(""); }), false),
             ("signature-number", Box::new(|d: &mut Value| { if let Some(x) = first_number_path(&mut d["signature"]["p_credential"]) { *x = json!(bump_digit(x.as_str().unwrap())); } }), true),
             ("correctness-proof-of-another", Box::new(|d: &mut Value| { d["signature_correctness_proof"] = serde_json::to_value(&other_cred.signature_correctness_proof).unwrap(); }), true),
             ("signature-of-another", Box::new(|d: &mut Value| { d["signature"] = serde_json::to_value(&other_cred.signature).unwrap(); }), true),
@@ -259,6 +261,8 @@ pub fn run(tier: &str, seed: u64, outdir: &str) {
             // applied to the W3C document only (the legacy run of these is the unaltered credential)
             ("w3c-bool-claim-added", Box::new(|_d: &mut Value| {}), false),
             ("w3c-foreign-anoncreds-proof-first", Box::new(|_d: &mut Value| {}), true),
+            // the proof member written as a single object instead of a one-element list (both are valid W3C JSON)
+            ("w3c-proof-as-single-object", Box::new(|_d: &mut Value| {}), false),
         ];
         for (ename, edit, sig_altered) in &edits {
             for k in 0..2usize {
@@ -308,6 +312,11 @@ pub fn run(tier: &str, seed: u64, outdir: &str) {
                                 match *ename {
                                     "w3c-bool-claim-added" => {
                                         wdoc["credentialSubject"]["over18"] = json!(true);
+                                    }
+                                    "w3c-proof-as-single-object" => {
+                                        if let Value::Array(a) = wdoc["proof"].take() {
+                                            wdoc["proof"] = a.into_iter().next().unwrap_or(Value::Null);
+                                        }
                                     }
                                     "w3c-foreign-anoncreds-proof-first" => {
                                         let Ok(ow) = w3c::credential_conversion::credential_to_w3c(other_cred, &cds[k].issuer_id.as_str().try_into().unwrap(), None) else { continue };
